@@ -492,7 +492,20 @@ func (e *envelopeEncryption) loadIntermediateKey(ctx context.Context, meta KeyMe
 
 	defer sk.Close()
 
-	return e.intermediateKeyFromEKR(sk, ekr)
+	ik, err := e.intermediateKeyFromEKR(sk, ekr)
+	if err != nil {
+		return nil, err
+	}
+
+	if internal.IsKeyInvalid(sk, e.Policy.ExpireKeyAfter) {
+		// The key still decrypts existing data, but its parent system key is revoked or expired. This load also
+		// refreshes the cache entry that the encrypt path consults for the latest intermediate key, so flag the
+		// key as no longer valid for protecting new data. Otherwise reads arriving at least once per revoke
+		// check interval would keep an intermediate key under a revoked system key in use indefinitely.
+		ik.SetRevoked(true)
+	}
+
+	return ik, nil
 }
 
 // Close frees all memory locked by the keys in the session. It should be called
